@@ -23,7 +23,7 @@ structure St2 where
 
 inductive Ev2
   | ev (e : Ev)
-  | markFail (m : Nat) (c : Ch)            -- a system call of `markdone` on local|remote/<m> failed
+  | markFail (m : Nat) (c : Ch) (pos : Nat) -- a system call of `markdone` for the record at byte offset `pos` of local|remote/<m> failed
   | cleanRestart                            -- exit 0 after TERM, then a new qmail-send on the same queue
 
 def dropChan (owed : List (Nat × Ch × Nat)) (m : Nat) (c : Ch) : List (Nat × Ch × Nat) :=
@@ -41,11 +41,20 @@ def recAt (s : St) (m : Nat) (c : Ch) (pos : Nat) : Option Nat :=
   | some rs => recIndex rs pos
   | none => none
 
+/-- the records with a `D` report among the pending bounce paragraphs -/
+def finalNotes (s : St) : List (Nat × Ch × Nat) := (s.notes.filter (·.final)).map (fun n => (n.m, n.c, n.idx))
+
+/-- the completion mark of record `x` = (message, channel, record index) is on disk -/
+def markedDone (s : St) (x : Nat × Ch × Nat) : Bool :=
+  match (s.msg x.1).chan x.2.1 with
+  | some rs => decide (x.2.2 < rs.length) && (rs.getD x.2.2 ⟨false, []⟩).done
+  | none => false
+
 /-- how an event of the base monitor (accepted: `s → s'`) changes the list of due marks -/
 def owedStep (s s' : St) (owed : List (Nat × Ch × Nat)) : Ev → List (Nat × Ch × Nat)
-  | .rbytes _ _ => s'.mayMark ++ owed                 -- the `K` reports of this read (`rbytes` starts from `mayMark = []`)
+  | .rbytes _ _ => s'.mayMark ++ finalNotes s' ++ owed  -- the `K` and the `D` reports of this read (`rbytes` starts from `mayMark = notes = []`)
   | .appendBounce m _ =>
-    match s.notes.find? (fun n => n.m == m) with      -- the `D` report whose paragraph this is
+    match s.notes.find? (fun n => n.m == m) with      -- the report (`D`, or `Z` of an expired message) whose paragraph this is
     | some n => (m, n.c, n.idx) :: owed
     | none => owed
   | .markD m c pos =>
@@ -72,16 +81,48 @@ def accept2 (cfg : Cfg) (s : St2) : Ev2 → Option St2
     match accept cfg s.base e with
     | some b => some { base := b, owed := owedStep s.base b s.owed e }
     | none => none
-  | .markFail m c => some { s with owed := dropChan s.owed m c }
+  | .markFail m c pos =>
+    match recAt s.base m c pos with
+    | some idx => some { s with owed := dropRec s.owed (m, c, idx) }    -- only the record whose mark failed is excused
+    | none => some s
   | .cleanRestart =>
     match accept cfg s.base .restart with
     | some b => some { s with base := b }
     | none => none
+
+/-- the record is finished as far as the daemon can know: its mark is on disk, or its final report was handled -/
+def Fin2 (s : St2) (x : Nat × Ch × Nat) : Prop := x ∈ s.owed ∨ markedDone s.base x = true
+
+/-- the events after which a finished record may legitimately be attempted again: a crash, a failing `markdone`, a machine
+crash that reverted marks of the file or garbled the files being preprocessed — unless the mark is on disk —, and the end of
+the record's life (its file is unlinked; the message number starts a new life) -/
+def excuse (s : St2) (x : Nat × Ch × Nat) : Ev2 → Bool
+  | .ev .restart => !markedDone s.base x
+  | .markFail m c pos => m == x.1 && c == x.2.1 && recAt s.base m c pos == some x.2.2 && !markedDone s.base x
+  | .ev (.crashMarks m c _) => m == x.1 && c == x.2.1
+  | .ev (.unlinkChan m c) => m == x.1 && c == x.2.1
+  | .ev (.crashTodoFiles m) => m == x.1
+  | .ev (.cUnlinkTodo m) => m == x.1
+  | .ev (.newmsg m _ _) => m == x.1
+  | _ => false
+
+/-- a delivery command for record `x` -/
+def cmdFor (s : St2) (x : Nat × Ch × Nat) : Ev2 → Bool
+  | .ev (.cmd c _ m pos _) => m == x.1 && c == x.2.1 && recAt s.base m c pos == some x.2.2
+  | _ => false
 
 def acceptAll2 (cfg : Cfg) : St2 → List Ev2 → Option St2
   | s, [] => some s
   | s, e :: es => match accept2 cfg s e with
     | some s' => acceptAll2 cfg s' es
     | none => none
+
+/-- running `evs` from `s`: does an excusing event for `x` occur / is a delivery command for `x` issued (each judged in
+the state in which it happens)? -/
+def anyAlong (cfg : Cfg) (p : St2 → Ev2 → Bool) : St2 → List Ev2 → Bool
+  | _, [] => false
+  | s, e :: es => p s e || (match accept2 cfg s e with
+    | some s' => anyAlong cfg p s' es
+    | none => false)
 
 end Nq.Daemon
